@@ -9364,6 +9364,8 @@ struct CI_ final {
 	using StateList			= Merge<typename HeadInfo::StateList, typename SubStates::StateList>;
 	using RegionList		= Merge<typename HeadInfo::StateList, typename SubStates::RegionList>;
 
+	static_assert(sizeof...(TSubStates) <= INVALID_PRONG + 0u, "a region holds at most 255 sub-states: prong 255 is INVALID_PRONG");
+
 	static constexpr Short WIDTH		  = sizeof...(TSubStates);
 	static constexpr Long  REVERSE_DEPTH  = SubStates::REVERSE_DEPTH + 1;
 	static constexpr Short COMPO_COUNT	  = SubStates::COMPO_COUNT	 + 1;
@@ -9431,6 +9433,8 @@ struct OI_ final {
 	using SubStates			= OSI_<TSubStates...>;
 	using StateList			= Merge<typename HeadInfo::StateList, typename SubStates::StateList>;
 	using RegionList		= Merge<typename HeadInfo::StateList, typename SubStates::RegionList>;
+
+	static_assert(sizeof...(TSubStates) <= INVALID_PRONG + 0u, "a region holds at most 255 sub-states: prong 255 is INVALID_PRONG");
 
 	static constexpr Short WIDTH			= sizeof...(TSubStates);
 	static constexpr Long  REVERSE_DEPTH	= SubStates::REVERSE_DEPTH + 1;
